@@ -67,8 +67,17 @@ def i12(cx):
             d, v = sw_value(lab)
             if d is not None:
                 dd = strip(d)
-                if dd[0] == 'discr' and strip(dd[1]) in fur_polls and v == 0 and st == 'armed':
+                neg = 0
+                while dd[0] == 'un' and dd[1] == 'Not':
+                    dd = strip(dd[2])
+                    neg ^= 1
+                if dd[0] == 'discr' and strip(dd[1]) in fur_polls and v == 0 and st == 'armed' and not neg:
                     st = 'ready'
+                # Poll::is_pending() / is_ready() on the value of the timer poll
+                if dd[0] == 'call' and dd[2] and strip(dd[2][0]) in fur_polls and st == 'armed' and v in (0, 1):
+                    tail = dd[1].rsplit('::', 1)[-1]
+                    if (tail == 'is_pending' and (v ^ neg) == 0) or (tail == 'is_ready' and (v ^ neg) == 1):
+                        st = 'ready'
             if nd in tasks:
                 if st != 'ready':
                     return 'BAD:' + st
